@@ -1198,8 +1198,20 @@ def _execute_stepwise(run):
         if first:
             recs = tap_b.records[n0:]
             raw = max([float(r.logits[torch.isfinite(r.logits)].abs().max()) for r in recs] or [0.0])
+            # conditioning yardstick: the same states scored one by one by the same network.  The rollout scored
+            # them in batches of B states of one step, the update scores a mini-batch of mixed steps; instance
+            # normalisation over 4-9 nodes can amplify float32 layout noise to 1e-4..1e-3, which is not a stale
+            # policy.  The layout sensitivity measured here bounds what rounding alone can do.
+            layout = 0.0
+            try:
+                with torch.no_grad():
+                    alone = torch.cat([evaluate(td_mb[i:i + 1].clone())[0].detach().reshape(-1)
+                                       for i in range(int(td_mb.batch_size[0]))])
+                layout = float((alone.double() - out[0].detach().reshape(-1).double()).abs().max())
+            except Exception:  # noqa: BLE001 - scoring a single state is not what the update does; yardstick only
+                layout = 0.0
             captures.append({"old": pre, "new": out[0].detach().clone(), "opt_steps": counters["opt_steps"],
-                             "rows": int(td_mb.batch_size[0]), "raw": raw})
+                             "rows": int(td_mb.batch_size[0]), "raw": raw, "layout": layout})
         del tap_b.records[:]
         return out
 
@@ -1230,7 +1242,9 @@ def _execute_stepwise(run):
             ratios.append([float(x) for x in ratio])
             run.log.add("sw_update", b, c["rows"], counters["evals"], counters["opt_steps"], _hexes(old),
                         [round(float(x), 6) for x in ratio])
-            ulp = 16 * _F32_EPS * c["raw"]
+            ulp = 16 * _F32_EPS * c["raw"] + 4.0 * c["layout"]
+            if c["layout"] > 1e-5:
+                run.probe("stepwise_layout_sensitive")
             for i in range(ratio.numel()):
                 if not abs(float(ratio[i]) - 1.0) <= 1e-5 + ulp:
                     run.violate(scope, "stepwise_ppo_ratio", f"update {b} (batch_idx {b}), first mini-batch, row {i}: "
